@@ -325,8 +325,6 @@ def oracle(item, impl):
             return "match_nested: matched parts + remaining do not partition the path"
     elif nested[1] != path:
         return "match_nested: no match but remaining is not the whole path"
-    if kind == "built" and not got:
-        return "a path built from the route's own segments does not match"
     return None
 
 
@@ -410,6 +408,58 @@ def classify(item, impl, model):
     if k_dslash(path):
         return "F-C14-d"
     return None
+
+
+def _utf8(v):
+    try:
+        bytes(v).decode("utf-8")
+        return all(isinstance(x, int) and 0 <= x < 256 for x in v)
+    except Exception:
+        return False
+
+
+def valid_case(item):
+    """generator preconditions (kept by the shrinker): shape of the case, arities 1..6, valid
+    UTF-8 everywhere, names non-empty and not starting with '/', a wildcard only as the very
+    last segment of a leaf route"""
+    try:
+        c = item["case"]
+        if len(c) != 4 or c[0] not in (0, 1):
+            return False
+        base, routes, path = c[1], c[2], c[3]
+        if not (base == [] or (len(base) == 1 and _utf8(base[0]))):
+            return False
+        if not _utf8(path):
+            return False
+
+        def seg_ok(s):
+            k = s[0]
+            if k == 4:
+                return len(s) == 1
+            if k == 0:
+                return len(s) == 2 and _utf8(s[1])
+            if k in (1, 2, 3):
+                return len(s) == 2 and _utf8(s[1]) and len(s[1]) > 0 and s[1][0] != 47
+            if k == 5:
+                return len(s) == 2 and 1 <= len(s[1]) <= 6 and all(seg_ok(x) for x in s[1])
+            return False
+
+        def route_ok(r):
+            if not seg_ok(r[0]):
+                return False
+            if r[1] == 0:
+                return len(r) == 2
+            return r[1] == 1 and len(r) == 3 and 1 <= len(r[2]) <= 6 and all(route_ok(x) for x in r[2])
+
+        if not (1 <= len(routes) <= 6 and all(route_ok(r) for r in routes)):
+            return False
+        for segs in leaf_seglists(routes):
+            real = [x for x in segs if x[0] != 4]
+            if any(x[0] == 3 for x in real[:-1]):
+                return False
+        return True
+    except Exception:
+        return False
 
 
 def nontrivial(item, model):
